@@ -14,8 +14,8 @@
 //   U RemoveUnreachableStates, L RemoveUselessStates, Y Union (maps reported), I ReindexStates, J UnionDisjointStates,
 //   P k = replay of the k-th library operation of the history on fresh operands built from the values recorded then
 // output: per step:  S [extras] L <nlive> { t<i> <T> | w<i> <W> }*
-//   extras:  U/L/J: X <result of the re-run>;  Y: MA <map> MB <map> X <result> MA <map> MB <map>;
-//            tI: X <result>;  wI: M <read-back map> X <result> M <read-back map>;  P: P <result> [maps as for the op]
+//   extras:  U/L/J: X <result of the re-run> Z <result in a pristine process>;  Y: MA <map> MB <map> X <result> MA <map> MB <map> Z <same>;
+//            tI: X <result> Z <result>;  wI: M <read-back map> X <result> M <map> Z <result> M <map>;  P: P <result> [maps as for the op]
 #include <algorithm>
 #include <cstdio>
 #include <cstdlib>
@@ -42,6 +42,8 @@
 #undef private
 #undef protected
 #include "cont_watchdog.hh"
+#include <sys/types.h>
+#include <sys/wait.h>
 using namespace vd;
 typedef VATA::ExplicitTreeAut Aut;
 typedef VATA::ExplicitFiniteAut FA;
@@ -126,7 +128,71 @@ static std::string rerun(const LibRec& r) {
 	FA a, b; mkFA(a, r.wa); mkFA(b, r.wb); return runWordLib(r, a, b, nullptr, true);
 }
 
+// ---- a pristine process: forked before the first case, it has created no automaton at all.  Each request is served by a
+// grandchild forked from it (so the server itself stays pristine): the operation is run there on operands rebuilt from the
+// recorded values.  Comparing its answer with the in-history answer checks "does not depend on which other automata were
+// created, modified or destroyed earlier in the same process".
+static WV readW(Toks& t) {
+	WV w; t.expect("W");
+	U n = t.num(); for (U i = 0; i < n; ++i) w.startset.push_back(t.num());
+	n = t.num(); for (U i = 0; i < n; ++i) { U s = t.num(); U a = t.num(); w.syms.push_back(std::make_pair(s, a)); }
+	n = t.num(); for (U i = 0; i < n; ++i) w.finals.push_back(t.num());
+	n = t.num(); for (U i = 0; i < n; ++i) { std::vector<U> e; e.push_back(t.num()); e.push_back(t.num()); e.push_back(t.num()); w.edges.push_back(e); }
+	return w;
+}
+static std::string showRec(const LibRec& r) {
+	std::ostringstream os; os << r.kind << ' ';
+	if (r.kind[0] == 't') os << showTA(r.ta) << ' ' << showTA(r.tb); else os << showW(r.wa) << ' ' << showW(r.wb);
+	os << ' ' << showMap("M", r.m) << ' ' << r.off;
+	return os.str();
+}
+static LibRec readRec(const std::string& line) {
+	Toks t(line); LibRec r; r.kind = t.word();
+	if (r.kind[0] == 't') { r.ta = readTA(t); r.tb = readTA(t); } else { r.wa = readW(t); r.wb = readW(t); }
+	r.m = readMap(t); r.off = t.num();
+	return r;
+}
+struct Pristine {
+	FILE* to = nullptr; FILE* from = nullptr; pid_t pid = -1;
+	void start() {
+		int a[2], b[2];
+		if (pipe(a) != 0 || pipe(b) != 0) return;
+		pid = fork();
+		if (pid == 0) {
+			close(a[1]); close(b[0]);
+			FILE* in = fdopen(a[0], "r"); FILE* out = fdopen(b[1], "w");
+			char* buf = nullptr; size_t cap = 0; ssize_t len;
+			while ((len = getline(&buf, &cap, in)) > 0) {
+				std::string req(buf, (size_t)len); while (!req.empty() && (req.back() == '\n' || req.back() == '\r')) req.pop_back();
+				fflush(out);
+				pid_t g = fork();
+				if (g == 0) {
+					alarm(10);
+					std::string ans;
+					try { ans = rerun(readRec(req)); } catch (const std::exception& e) { ans = std::string("EXC ") + e.what(); } catch (...) { ans = "EXC non_std"; }
+					fprintf(out, "%s\n", ans.c_str()); fflush(out); _exit(0);
+				}
+				int st = 0; if (g > 0) waitpid(g, &st, 0);
+				if (g < 0 || !WIFEXITED(st) || WEXITSTATUS(st) != 0) { fprintf(out, "EXC pristine_process_died\n"); fflush(out); }
+			}
+			_exit(0);
+		}
+		close(a[0]); close(b[1]);
+		to = fdopen(a[1], "w"); from = fdopen(b[0], "r");
+	}
+	std::string ask(const LibRec& r) {
+		if (!to || !from) return "EXC no_pristine_process";
+		fprintf(to, "%s\n", showRec(r).c_str()); fflush(to);
+		char* buf = nullptr; size_t cap = 0; ssize_t len = getline(&buf, &cap, from);
+		if (len <= 0) { free(buf); return "EXC pristine_process_gone"; }
+		std::string ans(buf, (size_t)len); free(buf);
+		while (!ans.empty() && (ans.back() == '\n' || ans.back() == '\r')) ans.pop_back();
+		return ans;
+	}
+};
+
 int main() {
+	Pristine pristine; pristine.start();
 	std::string line;
 	while (std::getline(std::cin, line)) {
 		guarded([&]() {
@@ -162,7 +228,7 @@ int main() {
 					tfree(h); r.ta = obsAut(tl(s1)); r.tb = obsAut(tl(s2));
 					std::string maps = runTreeLib(r, tl(s1), tl(s2), &T[h], false);
 					if (!maps.empty()) os << ' ' << maps;
-					os << " X " << rerun(r);
+					os << " X " << rerun(r) << " Z " << pristine.ask(r);
 					log.push_back(r);
 				}
 				else if (k == "tP" || k == "wP") { U j = t.num(); if (j >= log.size() || log[j].kind[0] != k[0]) throw std::runtime_error("driver: bad replay index"); os << " P " << rerun(log[j]); }
@@ -182,7 +248,7 @@ int main() {
 					wfree(h); r.wa = obsFA(wl(s1)); r.wb = obsFA(wl(s2));
 					std::string maps = runWordLib(r, wl(s1), wl(s2), &W[h], false);
 					if (!maps.empty()) os << ' ' << maps;
-					os << " X " << rerun(r);
+					os << " X " << rerun(r) << " Z " << pristine.ask(r);
 					log.push_back(r);
 				}
 				else throw std::runtime_error("driver: unknown step " + k);
